@@ -25,6 +25,7 @@ type C11Case struct {
 	TwinEnc   string     `json:"twinEnc"`
 	TwinRaw   string     `json:"twinRaw"`
 	Placement string     `json:"placement"`
+	InheritNS bool       `json:"inheritNS,omitempty"` // the twin's encrypted plaintext relies on namespace declarations of the Response
 	Enc2      *h.EncSpec `json:"enc2,omitempty"` // second, independently drawn encryption for the twin\'s second assertion
 }
 
@@ -75,6 +76,7 @@ func genC11(t *rapid.T) C11Case {
 	c.Enc = *h.GenEncSpec(to).Draw(t, "enc")
 	c.Twin = rapid.IntRange(0, 2).Draw(t, "twin") == 0
 	c.Placement = rapid.SampledFrom([]string{"response", "assertions", "both"}).Draw(t, "placement")
+	c.InheritNS = c.Twin && rapid.IntRange(0, 2).Draw(t, "inheritNS") == 0
 	if c.Twin && rapid.Bool().Draw(t, "secondEncrypted") {
 		c.Enc2 = h.GenEncSpec(to).Draw(t, "enc2")
 	}
@@ -103,6 +105,7 @@ func (c *C11Case) build() error {
 		e := c.Enc
 		g2 := gridGenuine(sp, 2, c.Placement)
 		g2.Enc = []*h.EncSpec{&e, c.Enc2}
+		g2.InheritNS = c.InheritNS
 		_, enc, _, err := g2.Render()
 		if err != nil {
 			return err
@@ -117,7 +120,7 @@ func checkC11(c C11Case) h.Outcome {
 	fixtureCombo := (c.Enc.DataAlg == types.MethodAES128CBC || c.Enc.DataAlg == types.MethodAES256CBC) && c.Enc.Transport == types.MethodRSAOAEP && c.Enc.Digest == "-" && !c.Enc.Detached && c.KeyMode == "tls"
 	o.NonTrivial = !fixtureCombo
 	o.Classes = []string{"alg:" + shortAlg(c.Enc.DataAlg), "transport:" + shortAlg(c.Enc.Transport), "digest:" + shortAlg(c.Enc.Digest), fmt.Sprintf("detached:%v", c.Enc.Detached),
-		fmt.Sprintf("recipient:%v", c.Enc.Recipient != nil), "key:" + c.KeyMode, fmt.Sprintf("len%%16:%d", len(c.Plain)%16), fmt.Sprintf("twin:%v", c.Twin), fmt.Sprintf("twoEncrypted:%v", c.Enc2 != nil)}
+		fmt.Sprintf("recipient:%v", c.Enc.Recipient != nil), "key:" + c.KeyMode, fmt.Sprintf("len%%16:%d", len(c.Plain)%16), fmt.Sprintf("twin:%v", c.Twin), fmt.Sprintf("twoEncrypted:%v", c.Enc2 != nil), fmt.Sprintf("inheritNS:%v", c.InheritNS)}
 	if n := len(c.Plain); n > 0 && c.Plain[n-1] == 0 {
 		o.Classes = append(o.Classes, "plain-ends-in-zero")
 	}
@@ -264,7 +267,7 @@ func TestC11_Grid(t *testing.T) {
 								r := e.To
 								e.Recipient = &r
 							}
-							c := C11Case{Enc: e, Plain: plain, KeyMode: mode, Twin: i%4 == 0, Placement: []string{"response", "assertions", "both"}[i%3]}
+							c := C11Case{Enc: e, Plain: plain, KeyMode: mode, Twin: i%4 == 0, InheritNS: i%8 == 0, Placement: []string{"response", "assertions", "both"}[i%3]}
 							if c.Twin && i%8 == 0 {
 								// second assertion: the opposite key placement and another digest choice
 								e2 := e
